@@ -134,6 +134,45 @@ func H_C12_classes() {
 	vfAssert(log.String() == "", "nothing after the failing action runs")
 }
 
+// H_C12_lineAfter: the failing action is preceded by three pieces (symbolic choice among
+// eight each): plain newlines, a comment spanning lines, actions with a right / left trim
+// marker that swallows newlines, a multi-line action, a raw string literal containing a
+// newline, a block definition spanning lines, plain text - in the main file or an included
+// one: the reported line is 1 + the number of newline bytes before the action in the source.
+//
+//gosym:reach failed
+func H_C12_lineAfter() {
+	pieces := []string{"\n", "{* a\nb\n*}", "{{ 1 -}}\n\n", "\n\n{{- 1 }}", "{{ 1 +\n 2 }}", "{{ `p\nq` }}", "{{ block lb() }}\nz\n{{ end }}", "t"}
+	pfx := ""
+	for k := 0; k < 3; k++ {
+		pfx += pieces[ndChoice("piece"+ndItoa(k), len(pieces))]
+	}
+	c := ndChoice("class", 4)
+	inc := ndBool("included")
+	src := pfx + c12Failing[c] + "\nREST"
+	files := []string{"/m.jet", src}
+	file := "/m.jet"
+	if inc {
+		files = []string{"/m.jet", `{{ include "/i.jet" }}`, "/i.jet", src}
+		file = "/i.jet"
+	}
+	set := hxSet(nil, files...)
+	_, err := hxExec(set, "/m.jet", c12Vars(7), hxData{})
+	vfReach("failed")
+	vfAssert(err != nil, "the failure is returned as an error")
+	if err == nil {
+		return
+	}
+	line := 1
+	for i := 0; i < len(pfx); i++ {
+		if pfx[i] == '\n' {
+			line++
+		}
+	}
+	vfNote(c12Head(err.Error()))
+	vfAssert(hxContains(err.Error(), c12Needle(file, line)), "the message names the file and the action's line")
+}
+
 // H_C12_otherFile: the failing action lives in an included, an imported (block) or an
 // extended template, on a symbolic line: the message names that file and that line.
 //
